@@ -39,6 +39,7 @@ structure FFrame where
   got : Option Outcome := none   -- outcome computed (body) or received (deref)
   flag : Bool := false           -- flag value read
   timedOut : Bool := false
+  took : Bool := false           -- ghost: the `brTrue` branch was taken (future-cancel found Done set)
   defers : List MOp := []
   returning : Bool := false
   deriving DecidableEq, Repr
@@ -51,6 +52,7 @@ structure FutS where
   cancelled : Bool := false
   ctxCancelled : Bool := false
   runs : Nat := 0                -- ghost: how often the body function was applied
+  res : Option Outcome := none   -- ghost: the outcome the body function produced
   kind : BodyKind := {}
   body : Option FFrame := none   -- the goroutine started by NewFuture; none = finished
   deriving DecidableEq, Repr
@@ -86,11 +88,11 @@ def execF (o : Owner) (arm : Nat) (ctxEnded : Bool) (m : MOp) (fr : FFrame) (F :
   | .read .cancelled => some ({ nx with flag := F.cancelled }, F)
   | .write .done => some (nx, { F with done := true })
   | .write .cancelled => some (nx, { F with cancelled := true })
-  | .brTrue .done k => some (if F.done then { fr with pc := k } else nx, F)
+  | .brTrue .done k => some (if F.done then { fr with pc := k, took := true } else nx, F)
   | .cancelCtx => some (nx, { F with ctxCancelled := true })
   | .callBody =>
-    some ({ nx with got := some (if F.kind.honors && F.ctxCancelled then (true, 0) else F.kind.outcome) },
-          { F with runs := F.runs + 1 })
+    let oc : Outcome := if F.kind.honors && F.ctxCancelled then (true, 0) else F.kind.outcome
+    some ({ nx with got := some oc }, { F with runs := F.runs + 1, res := some oc })
   | .send => match fr.got with
     | some oc => (putBack oc F).map fun F' => (nx, F')
     | none => none
